@@ -406,6 +406,13 @@ class Committee(common.Suite):
                     if want_f or both:
                         st["forces_comm"], t = gen_forces_state(rng, natoms, ref)
                         tags |= t if scheme == "forces" else set()
+                        if rng.random() < 0.15:
+                            # a committee that hands out single-precision forces (values made exactly representable)
+                            import numpy as _np
+
+                            f32 = [[float(_np.float32(x)) for x in row] for row in st["forces_comm"]]
+                            if all(math.isfinite(x) for row in f32 for x in row):
+                                st["forces_comm"], st["f32"] = f32, True
                     if (not want_f) or both:
                         st["energies"], t = gen_energy_state(rng, ref)
                         tags |= t if scheme == "energy" else set()
@@ -435,7 +442,7 @@ class Committee(common.Suite):
                 calc = Calc() if st["kind"] == "custom" else SinglePointCalculator(atoms, energy=0.0,
                                                                                   forces=np.zeros((n, 3)))
                 if st["forces_comm"] is not None:
-                    calc.results["forces_comm"] = np.array(st["forces_comm"], dtype=float).reshape(-1, n, 3)
+                    calc.results["forces_comm"] = np.array(st["forces_comm"], dtype=np.float32 if st.get("f32") else float).reshape(-1, n, 3)
                 if st["energies"] is not None:
                     calc.results["energies"] = np.array(st["energies"], dtype=float)
                 atoms.calc = calc
